@@ -70,26 +70,51 @@ def renderXml (doc : List (Rd.VNode Label (List UInt8))) : String := String.ofLi
 
 def toXml (g : G Label Hex) : String := renderXml (exportDoc g)
 
-def dotHeader : String :=
-  "/* Render it at https://dreampuf.github.io/GraphvizOnline/ */\ndigraph {\n  node [fixedsize=true,width=1,fontname=\"Arial\"];\n  edge [fontname=\"Arial\"];"
+/-! #### `to_dot`, character by character -/
 
-def dotEdge (v : Nat) (e : Label × Nat) : String :=
-  let c1 := match e.1 with
-    | .greek g => if g = 'ρ' ∨ g = 'σ' then ",color=gray,fontcolor=gray" else ""
-    | _ => ""
-  let c2 := match e.1 with
-    | .greek g => if g = 'π' then ",style=dashed" else ""
-    | _ => ""
-  s!"  v{v} -> v{e.2} [label=\"{labelText e.1}\"{c1}{c2}];"
+def dH1 : List Char := ['/', '*', ' ', 'R', 'e', 'n', 'd', 'e', 'r', ' ', 'i', 't', ' ', 'a', 't', ' ', 'h', 't', 't', 'p', 's', ':', '/', '/', 'd', 'r', 'e', 'a', 'm', 'p', 'u', 'f', '.', 'g', 'i', 't', 'h', 'u', 'b', '.', 'i', 'o', '/', 'G', 'r', 'a', 'p', 'h', 'v', 'i', 'z', 'O', 'n', 'l', 'i', 'n', 'e', '/', ' ', '*', '/']
+def dH2 : List Char := ['d', 'i', 'g', 'r', 'a', 'p', 'h', ' ', '{']
+def dH3 : List Char := [' ', ' ', 'n', 'o', 'd', 'e', ' ', '[', 'f', 'i', 'x', 'e', 'd', 's', 'i', 'z', 'e', '=', 't', 'r', 'u', 'e', ',', 'w', 'i', 'd', 't', 'h', '=', '1', ',', 'f', 'o', 'n', 't', 'n', 'a', 'm', 'e', '=', '"', 'A', 'r', 'i', 'a', 'l', '"', ']', ';']
+def dH4 : List Char := [' ', ' ', 'e', 'd', 'g', 'e', ' ', '[', 'f', 'o', 'n', 't', 'n', 'a', 'm', 'e', '=', '"', 'A', 'r', 'i', 'a', 'l', '"', ']', ';']
+def dV : List Char := [' ', ' ', 'v']
+def dShape : List Char := ['[', 's', 'h', 'a', 'p', 'e', '=', 'c', 'i', 'r', 'c', 'l', 'e', ',', 'l', 'a', 'b', 'e', 'l', '=', '"', 'ν']
+def dPlain : List Char := ['"', ']', ';', ' ']
+def dColor : List Char := ['"', ',', 'c', 'o', 'l', 'o', 'r', '=', '"', '#', 'f', '9', '6', '9', '0', '0', '"', ']', ';', ' ', '/', '*', ' ']
+def dCEnd : List Char := [' ', '*', '/']
+def dArrow : List Char := [' ', '-', '>', ' ', 'v']
+def dLabel : List Char := [' ', '[', 'l', 'a', 'b', 'e', 'l', '=', '"']
+def dGray : List Char := [',', 'c', 'o', 'l', 'o', 'r', '=', 'g', 'r', 'a', 'y', ',', 'f', 'o', 'n', 't', 'c', 'o', 'l', 'o', 'r', '=', 'g', 'r', 'a', 'y']
+def dDash : List Char := [',', 's', 't', 'y', 'l', 'e', '=', 'd', 'a', 's', 'h', 'e', 'd']
+def dEEnd : List Char := [']', ';']
+def dFoot : List Char := ['}']
 
-def dotNode (n : Rd.VNode Label (List UInt8)) : List String :=
-  (match n.data with
-   | none => s!"  v{n.id}[shape=circle,label=\"ν{n.id}\"]; "
-   | some bs => s!"  v{n.id}[shape=circle,label=\"ν{n.id}\",color=\"#f96900\"]; /* {hexText bs} */") ::
-  n.edges.map (dotEdge n.id)
+/-- the attributes `to_dot` adds for the labels it knows -/
+def dotAttrs (a : Label) : List Char :=
+  (match a with
+   | .greek g => if g = 'ρ' ∨ g = 'σ' then dGray else []
+   | _ => []) ++
+  (match a with
+   | .greek g => if g = 'π' then dDash else []
+   | _ => [])
 
-def renderDot (doc : List (Rd.VNode Label (List UInt8))) : String :=
-  "\n".intercalate ([dotHeader] ++ doc.flatMap dotNode ++ ["}\n"])
+def dotEdgeLine (v : Nat) (e : Label × Nat) : List Char :=
+  dV ++ nat10 v ++ dArrow ++ nat10 e.2 ++ dLabel ++ Lb.print e.1 ++ ['"'] ++ dotAttrs e.1 ++ dEEnd
+
+def dotNodeLine (n : Rd.VNode Label (List UInt8)) : List Char :=
+  dV ++ nat10 n.id ++ dShape ++ nat10 n.id ++
+    (match n.data with
+     | none => dPlain
+     | some bs => dColor ++ HD.print bs ++ dCEnd)
+
+def dotNodeLines (n : Rd.VNode Label (List UInt8)) : List (List Char) :=
+  dotNodeLine n :: n.edges.map (dotEdgeLine n.id)
+
+def dotLines (doc : List (Rd.VNode Label (List UInt8))) : List (List Char) :=
+  [dH1, dH2, dH3, dH4] ++ doc.flatMap dotNodeLines ++ [dFoot]
+
+def dotChars (doc : List (Rd.VNode Label (List UInt8))) : List Char := unlines (dotLines doc)
+
+def renderDot (doc : List (Rd.VNode Label (List UInt8))) : String := String.ofList (dotChars doc)
 
 def toDot (g : G Label Hex) : String := renderDot (exportDoc g)
 
